@@ -24,6 +24,8 @@ Scope decisions (so that no more is demanded than the property states):
   * both constructors named in the property's observe_at are used: from_string, and from_graph with node keys
     0..n-1 listing the fragments in an arbitrary order.
 """
+import contextlib
+import io
 import itertools
 import logging
 import random
@@ -160,11 +162,17 @@ def init_worker():
     import cgsmiles  # noqa: F401
 
 
+def quiet(fn):
+    """call(fn) with stdout captured: rebuild_h_atoms print()s pysmiles' message before raising."""
+    with contextlib.redirect_stdout(io.StringIO()):
+        return call(fn)
+
+
 def _resolve(built):
     from cgsmiles.resolve import MoleculeResolver
     if built['cg'] is not None:
-        return call(lambda: MoleculeResolver.from_string(built['cg']).resolve())
-    return call(lambda: MoleculeResolver.from_graph(built['frag_str'], g2.meta_graph(built['meta'])).resolve())
+        return quiet(lambda: MoleculeResolver.from_string(built['cg']).resolve())
+    return quiet(lambda: MoleculeResolver.from_graph(built['frag_str'], g2.meta_graph(built['meta'])).resolve())
 
 
 def base_reads_as_intended(built):
@@ -193,7 +201,7 @@ def reference(mol):
         if len(_REF) > 4000:
             _REF.clear()
         s = g2.reference_string(mol)
-        r = call(lambda: MoleculeResolver.from_string(s).resolve())
+        r = quiet(lambda: MoleculeResolver.from_string(s).resolve())
         if r[0] != 'ok':
             _REF[k] = (s, None, '%s: %s' % (r[1], r[2]))
         else:
